@@ -22,6 +22,22 @@ pub(super) mod constants {
     pub(super) const MAX_AGE: Duration = Duration::from_mins(5);
 }
 
+/// Verification hook: number of indexed blobs after which an index file is written (0 = the built-in constant)
+#[cfg(rustic_core_verif)]
+pub(crate) static VERIF_MAX_COUNT: std::sync::atomic::AtomicUsize =
+    std::sync::atomic::AtomicUsize::new(0);
+
+fn max_count() -> usize {
+    #[cfg(rustic_core_verif)]
+    {
+        let n = VERIF_MAX_COUNT.load(std::sync::atomic::Ordering::Relaxed);
+        if n > 0 {
+            return n;
+        }
+    }
+    constants::MAX_COUNT
+}
+
 pub(crate) type SharedIndexer<BE> = Arc<RwLock<Indexer<BE>>>;
 
 /// The `Indexer` is responsible for indexing blobs.
@@ -170,7 +186,7 @@ impl<BE: DecryptWriteBackend> Indexer<BE> {
             warn!("couldn't get elapsed time from system time: {err:?}");
             Duration::ZERO
         });
-        if self.count >= constants::MAX_COUNT || elapsed >= constants::MAX_AGE {
+        if self.count >= max_count() || elapsed >= constants::MAX_AGE {
             self.save()?;
             self.reset();
         }
